@@ -607,7 +607,7 @@ func (e *Env) quant(n *EQuant) Val {
 		rng = fmt.Sprintf("(and %s %s)", g.sle(lo, vname), g.slt(vname, hi))
 		// absolute-index form: quantify over j = off(X)+k for the first slice X indexed by k,
 		// so that facts about windows of the same backing array match syntactically.
-		if anchor := findAnchor(n.Body, n.Var); anchor != nil && !e.noAbs {
+		if anchor := findAnchor(n.Body, n.Var); anchor != nil && !e.noAbs && os.Getenv("GOVC_NOABS") == "" {
 			if xv, ok := e.tryTr(anchor); ok {
 				if _, isSl := typeUnder(xv.GT).(*types.Slice); isSl {
 					off := soff(xv.T)
@@ -794,6 +794,7 @@ func (e *Env) call(n *ECall) Val {
 				rs, idx, idx, es, idx, g.sle("ml", "mj"), g.slt("mj", "mh"), p, p)
 			// prepend so that every obligation of the function sees the definition
 			g.assumes = append([]string{ax1, ax2}, g.assumes...)
+			g.shiftTags(2)
 			for _, o := range g.obls {
 				o.nAssume += 2
 			}
